@@ -21,7 +21,9 @@ def _call(task):
 def run(ctx):
     import fam.timingcheck  # noqa: F401 (registers the reconverge design)
     fam = designs.family(ctx.tier, ctx.seed) + [{'name': 'reconverge', 'params': {'w': 2}},
-                                                {'name': 'reconverge', 'params': {'w': 3}}]
+                                                {'name': 'reconverge', 'params': {'w': 3}},
+                                                {'name': 'two_mems', 'params': {'aw': 2}},
+                                                {'name': 'two_mems', 'params': {'aw': 1}}]
     if ctx.tier != 'quick':
         fam += [{'name': 'rand_design', 'params': {'seed': 5000 + s}} for s in range(150)]
     tasks = []
